@@ -280,3 +280,79 @@ pub open spec fn tx_env_r<C: ContentAddrStore>(s: &UnsealedState<C>, rel: Map<Co
 pub open spec fn tx_checked_r<C: ContentAddrStore>(s: &UnsealedState<C>, rel: Map<CoinID, CoinDataHeight>, ns: Map<TxHash, StakeDoc>, tx: Transaction) -> bool { tx_checked(*s, rel, ns, tx) }
 pub open spec fn dosc_pre_r<C: ContentAddrStore>(s: &UnsealedState<C>, rel: Map<CoinID, CoinDataHeight>, tx: Transaction) -> bool { dosc_pre(*s, rel, tx) }
 pub open spec fn dosc_step_r<C: ContentAddrStore>(s: &UnsealedState<C>, rel: Map<CoinID, CoinDataHeight>, tx: Transaction, a: u128, b: u128) -> bool { dosc_step(*s, rel, tx, a, b) }
+
+// ---- C03: acceptance and result of a batch do not depend on the order in which its transactions are presented
+pub proof fn lemma_kept_perm(t1: Seq<Transaction>, t2: Seq<Transaction>, id: CoinID)
+    requires forall|x: Transaction| t1.contains(x) ==> t2.contains(x)
+    ensures kept_in(t1, t1.len() as int, id) ==> kept_in(t2, t2.len() as int, id)
+{
+    if kept_in(t1, t1.len() as int, id) {
+        let (t, i) = choose|t: int, i: int| 0 <= t < t1.len() && 0 <= i < t1[t].outputs@.len() && id == #[trigger] cid(t1[t], i) && t1[t].outputs@[i].covhash != spec_coin_destroy();
+        assert(t1.contains(t1[t]));
+        let u = choose|u: int| 0 <= u < t2.len() && t2[u] == t1[t];
+        assert(0 <= u < t2.len() && 0 <= i < t2[u].outputs@.len() && id == cid(t2[u], i));
+    }
+}
+pub proof fn lemma_stakes_perm(t1: Seq<Transaction>, t2: Seq<Transaction>, epoch: u64, m: Map<TxHash, StakeDoc>)
+    requires forall|x: Transaction| t1.contains(x) <==> t2.contains(x), stakes_of(t1, t1.len() as int, epoch, m)
+    ensures stakes_of(t2, t2.len() as int, epoch, m)
+{
+    assert forall|h: TxHash| #[trigger] m.contains_key(h) implies exists|q: int| 0 <= q < t2.len() && h == spec_txhash(#[trigger] t2[q]) && stake_reg(t2[q], epoch) == Some(m[h]) by {
+        let q = choose|q: int| 0 <= q < t1.len() && h == spec_txhash(#[trigger] t1[q]) && stake_reg(t1[q], epoch) == Some(m[h]);
+        assert(t1.contains(t1[q])); let u = choose|u: int| 0 <= u < t2.len() && t2[u] == t1[q];
+        assert(0 <= u < t2.len() && h == spec_txhash(t2[u]) && stake_reg(t2[u], epoch) == Some(m[h]));
+    }
+    assert forall|q: int| 0 <= q < t2.len() && stake_reg(#[trigger] t2[q], epoch) is Some implies m.contains_key(spec_txhash(t2[q])) by {
+        assert(t2.contains(t2[q])); let u = choose|u: int| 0 <= u < t1.len() && t1[u] == t2[q]; assert(stake_reg(t1[u], epoch) is Some);
+    }
+}
+/// no coin consumed twice is a property of the set of transactions (for duplicate-free orderings)
+pub proof fn lemma_distinct_perm(t1: Seq<Transaction>, t2: Seq<Transaction>)
+    requires t1.no_duplicates(), t2.no_duplicates(), forall|x: Transaction| t1.contains(x) <==> t2.contains(x), inputs_distinct(t1)
+    ensures inputs_distinct(t2)
+{
+    assert forall|t: int, k: int, u: int, k2: int| 0 <= t < t2.len() && 0 <= k < t2[t].inputs@.len() && 0 <= u < t2.len() && 0 <= k2 < t2[u].inputs@.len()
+        && pos_before(t, k, t2.len() as int, 0) && pos_before(u, k2, t2.len() as int, 0) && (t != u || k != k2) implies #[trigger] t2[t].inputs@[k] != #[trigger] t2[u].inputs@[k2] by {
+        assert(t2.contains(t2[t]) && t2.contains(t2[u]));
+        let a = choose|a: int| 0 <= a < t1.len() && t1[a] == t2[t]; let b = choose|b: int| 0 <= b < t1.len() && t1[b] == t2[u];
+        if t != u { assert(t2[t] != t2[u]); assert(a != b); }
+        assert(pos_before(a, k, t1.len() as int, 0) && pos_before(b, k2, t1.len() as int, 0));
+        assert(t1[a].inputs@[k] != t1[b].inputs@[k2]);
+    }
+}
+//@LEMMA C03 lemma_batch_core_perm what apply_tx_batch_impl guarantees for a batch (acceptance conditions and resulting state) holds for every duplicate-free ordering of the same transactions
+pub proof fn lemma_batch_core_perm<C: ContentAddrStore>(s: UnsealedState<C>, t1: Seq<Transaction>, t2: Seq<Transaction>, r: UnsealedState<C>, rel: Map<CoinID, CoinDataHeight>, ns: Map<TxHash, StakeDoc>)
+    requires t1.no_duplicates(), t2.no_duplicates(), forall|x: Transaction| t1.contains(x) <==> t2.contains(x), batch_core_with(s, t1, r, rel, ns)
+    ensures batch_core_with(s, t2, r, rel, ns)
+{
+    let n1 = t1.len() as int; let n2 = t2.len() as int;
+    assert forall|id: CoinID| (kept_in(t1, n1, id) <==> kept_in(t2, n2, id)) && (spent_by(t1, n1, id) <==> spent_by(t2, n2, id)) by {
+        lemma_kept_perm(t1, t2, id); lemma_kept_perm(t2, t1, id); lemma_created_perm(t1, t2, rel, id); lemma_created_perm(t2, t1, rel, id);
+    }
+    assert(rel_of(s, t2, rel)) by {
+        assert forall|t: int, i: int| 0 <= t < t2.len() && 0 <= i < t2[t].outputs@.len() && t2[t].outputs@[i].covhash != spec_coin_destroy() implies is_created_cdh(t2[t], i, s.height, rel[#[trigger] cid(t2[t], i)]) by {
+            assert(t2.contains(t2[t])); let a = choose|a: int| 0 <= a < t1.len() && t1[a] == t2[t]; assert(is_created_cdh(t1[a], i, s.height, rel[cid(t1[a], i)]));
+        }
+    }
+    lemma_distinct_perm(t1, t2);
+    assert forall|t: int| 0 <= t < t2.len() implies tx_accepted(s, rel, ns, #[trigger] t2[t]) by { assert(t2.contains(t2[t])); let a = choose|a: int| 0 <= a < t1.len() && t1[a] == t2[t]; assert(tx_accepted(s, rel, ns, t1[a])); }
+    lemma_batch_perm(s.coins@.coins, r.coins@.coins, t1, t2, rel);
+    assert forall|h: TxHash| in_batch(t1, n1, h) <==> in_batch(t2, n2, h) by {
+        if in_batch(t1, n1, h) { let q = choose|q: int| 0 <= q < n1 && h == spec_txhash(#[trigger] t1[q]); assert(t1.contains(t1[q])); let u = choose|u: int| 0 <= u < t2.len() && t2[u] == t1[q]; assert(0 <= u < n2 && h == spec_txhash(t2[u])); }
+        if in_batch(t2, n2, h) { let q = choose|q: int| 0 <= q < n2 && h == spec_txhash(#[trigger] t2[q]); assert(t2.contains(t2[q])); let u = choose|u: int| 0 <= u < t1.len() && t1[u] == t2[q]; assert(0 <= u < n1 && h == spec_txhash(t1[u])); }
+    }
+    lemma_fees_perm(t1, t2, s.fee_multiplier);
+    assert forall|q: int| 0 <= q < t2.len() && (#[trigger] t2[q]).kind == TxKind::Faucet implies !(s.network == NetID::Mainnet && !is_grandfathered(spec_txhash(t2[q])))
+            && (!is_grandfathered(spec_txhash(t2[q])) ==> !s.coins@.coins.contains_key(spec_marker(spec_txhash(t2[q])))) by {
+        assert(t2.contains(t2[q])); let a = choose|a: int| 0 <= a < t1.len() && t1[a] == t2[q]; assert(t1[a].kind == TxKind::Faucet);
+    }
+    if !stake_legacy(s.network, s.height) { lemma_stakes_perm(t1, t2, (s.height.0 / 200000) as u64, ns); }
+    assert forall|t: int| 0 <= t < t2.len() && (#[trigger] t2[t]).kind == TxKind::DoscMint implies dosc_le(s, rel, t2[t], r.dosc_speed) by {
+        assert(t2.contains(t2[t])); let a = choose|a: int| 0 <= a < t1.len() && t1[a] == t2[t]; assert(t1[a].kind == TxKind::DoscMint);
+    }
+    if r.dosc_speed != s.dosc_speed {
+        let t = choose|t: int| 0 <= t < t1.len() && (#[trigger] t1[t]).kind == TxKind::DoscMint && doscmint_ok(s, rel, t1[t], r.dosc_speed);
+        assert(t1.contains(t1[t])); let u = choose|u: int| 0 <= u < t2.len() && t2[u] == t1[t];
+        assert(0 <= u < t2.len() && t2[u].kind == TxKind::DoscMint && doscmint_ok(s, rel, t2[u], r.dosc_speed));
+    }
+}
